@@ -113,6 +113,20 @@ def _pycoin_frame(tb):
     return found
 
 
+def lib_call(what, f, *args, **kwargs):
+    """call a library function with documented arguments; an exception that carries no pycoin frame at all (raised by a
+    C-level wrapper around the function - functools caches, argument binding, struct) is the library refusing the call,
+    not a harness error"""
+    try:
+        return f(*args, **kwargs)
+    except Violation:
+        raise
+    except Exception as ex:  # noqa
+        if _pycoin_frame(ex.__traceback__) is None:
+            raise Violation("api:library-call-raised:%s" % type(ex).__name__, "%s raised %s: %s" % (what, type(ex).__name__, str(ex)[:200]))
+        raise
+
+
 def call_oracle(sub, case):
     """returns labels; raises Violation (also for exceptions escaping from pycoin code) or HarnessError"""
     try:
